@@ -61,6 +61,8 @@ def main():
             if demo == 'demo.cpp':
                 rc, out = sh('g++ -std=c++17 -O1 %s %s -o /tmp/demo-%s %s/_b/src/libteakra.a %s/_b/src/libteakra_c.a -pthread 2>&1 | tail -5' %
                              (inc, os.path.join(src, demo), sid, wt, wt), timeout=900)
+                if not os.path.exists('/tmp/demo-%s' % sid):
+                    meta['ran'].append('%s: demo compile failed: %s' % (tag, out[-300:]))
                 rc, out = sh('timeout 900 /tmp/demo-%s 2>&1 | tail -5' % sid)
                 rc2, _ = sh('timeout 900 /tmp/demo-%s >/dev/null 2>&1' % sid)
             else:
